@@ -23,7 +23,8 @@ from feems.types_for_feems import TypeComponent, TypePower, Power_kW, Speed_rpm,
 
 THEOREMS = ["step_inv", "grouping_from", "grouping", "order_free", "orientation_free", "count", "renumber_iff",
             "renumber_range", "busMap_iff", "noBus_le", "bus_sum_defined", "single_bus_is_one", "legacy_single_undefined", "change_at_step", "grouping_at_step",
-            "legacy_out_of_order_chain", "legacy_ring_zero_buses", "legacy_join_groups_refused"]
+            "legacy_out_of_order_chain", "legacy_ring_zero_buses", "legacy_join_groups_refused",
+            "setStatus_refusal_is_total", "setStatus_accepted", "setStatus_legacy_half_updated"]
 
 
 def make_system(swbs, ends):
@@ -234,7 +235,52 @@ def exhaustive_cases():
                         yield {"idx": -1, "swbs": swbs, "ends": ends, "status": status, "n": 2, "shape": "exhaustive", "api": "all"}
 
 
+def run_setter_case(ctx, rng, idx, case=None):
+    """`set_bus_tie_status([(number, row), …])` as a state machine: rows of one common length and rows of one value are accepted and all
+    assigned; anything else is refused and leaves every breaker as it was (model `Bus.setStatus`, D92)."""
+    if case is None:
+        k = int(rng.integers(2, 5))
+        n = int(rng.integers(2, 6))
+        numbers = [int(x) + 1 for x in rng.permutation(k)][:int(rng.integers(1, k + 1))]
+        kind = str(rng.choice(["series", "series+constants", "two lengths"], p=[0.3, 0.45, 0.25]))
+        updates = []
+        for j, b in enumerate(numbers):
+            ln = n
+            if kind == "series+constants" and rng.random() < 0.5:
+                ln = 1
+            if kind == "two lengths" and j == len(numbers) - 1:
+                ln = n + 1
+            updates.append({"number": b, "row": [bool(rng.random() < 0.6) for _ in range(ln)]})
+        case = {"kind": "setter", "k": k, "updates": updates, "variant": kind}
+    where = {"case": case}
+    k, updates = case["k"], case["updates"]
+    ctx.count("setter_call", case["variant"])
+    sys_ = make_system(list(range(1, k + 2)), [(i, i + 1) for i in range(1, k + 1)])
+    before = [[bool(x) for x in b.status] for b in sys_.bus_tie_breakers]
+    try:
+        sys_.set_bus_tie_status([(u["number"], np.array(u["row"], dtype=bool)) for u in updates])
+        after = [[bool(x) for x in b.status] for b in sys_.bus_tie_breakers]
+    except IndexError:
+        after = None
+        left = [[bool(x) for x in b.status] for b in sys_.bus_tie_breakers]
+        if left != before:
+            ctx.fail("predicate", "refused-setter-call-changes-breakers", f"the call was refused, yet the breakers changed: {before} -> {left}", where)
+    except Exception as e:
+        ctx.fail("predicate", "grouping-raises-" + core.error_class(e), f"set_bus_tie_status raised {type(e).__name__}: {e}", where)
+        return
+    lens = {len(u["row"]) for u in updates} - {1}
+    if len(lens) <= 1 and after is None:
+        ctx.fail("predicate", "setter-refuses-constant-next-to-series", f"rows of lengths {[len(u['row']) for u in updates]} refused", where)
+    if ctx.model_available:
+        m = ctx.model.call("bus.set_status", cur=before, updates=updates)
+        if m != after:
+            ctx.fail("correspondence", "set-status", f"model {m} impl {after}", where)
+    ctx.case_done(signature=("setter", json.dumps(updates)))
+
+
 def run(ctx):
+    for i in range(ctx.n(60, 600)):
+        run_setter_case(ctx, ctx.rng, i)
     ctx.rule = ("1-7 switchboards (ids 1..n or arbitrary), breaker graphs: chain/star/ring/random/pairs/parallel in random "
                 "declaration order and orientation, status series of 1-8 steps (closed with p in {.3,.6,.9}, 40% with long constant "
                 "stretches); both status-setting APIs; thorough: all simple graphs on <=4 switchboards x orders x orientations; "
@@ -265,7 +311,10 @@ def search(ctx):
 def replay(data):
     ctx = core.Ctx("C02", "quick", data.get("seed", 0))
     ctx.model_available = core.DRIVER.exists()
-    run_case(ctx, data["case"]["case"])
+    if data["case"]["case"].get("kind") == "setter":
+        run_setter_case(ctx, None, 0, data["case"]["case"])
+    else:
+        run_case(ctx, data["case"]["case"])
     for f in ctx.failures:
         print(f"{f['kind']}: {f['tag']}: {f['what'][:300]}")
     if ctx._model:
